@@ -99,49 +99,48 @@ ToStar(p) == [i \in 1..Len(p) |-> IF p[i] = SEG THEN ANY ELSE p[i]]
 SubSeqOrEmpty(s, a, b) == IF a > b THEN <<>> ELSE SubSeq(s, a, b)
 HasPrefix(s, pre) == Len(pre) <= Len(s) /\ SubSeq(s, 1, Len(pre)) = pre
 
-(* Declarative meaning, independent of the recursion: the name can be cut   *)
-(* into Len(p) consecutive pieces, piece i conforming to item i.            *)
-RECURSIVE NonDec(_, _, _)
-NonDec(k, lo, m) ==   \* all nondecreasing sequences of length k over lo..m
-  IF k = 0 THEN {<<>>}
-  ELSE UNION {{<<c>> \o s : s \in NonDec(k - 1, c, m)} : c \in lo..m}
-
+(* Declarative meaning, read off the statement and independent of the      *)
+(* character-by-character recursion above: the name is the concatenation   *)
+(* of Len(p) consecutive pieces, piece i being what item i stands for.     *)
 PieceOK(piece, d, item) ==
   IF item = ANY THEN TRUE
   ELSE IF item = SEG THEN \A i \in 1..Len(piece) : piece[i] # d
   ELSE piece = <<item>>
 
+RECURSIVE Declarative(_, _, _)
 Declarative(n, d, p) ==
   IF p = <<>> THEN n = <<>>
-  ELSE \E c \in NonDec(Len(p), 0, Len(n)) :
-         /\ c[Len(p)] = Len(n)
-         /\ \A i \in 1..Len(p) :
-              PieceOK(SubSeqOrEmpty(n, (IF i = 1 THEN 0 ELSE c[i - 1]) + 1, c[i]), d, p[i])
+  ELSE \E k \in 0..Len(n) :
+         /\ PieceOK(SubSeqOrEmpty(n, 1, k), d, p[1])
+         /\ Declarative(SubSeqOrEmpty(n, k + 1, Len(n)), d, Tail(p))
 
-LemStarAll(v)   == Matches(v.n, v.d, <<ANY>>)
-LemPct(v)       == Matches(v.n, v.d, <<SEG>>) <=> (\A i \in 1..Len(v.n) : v.n[i] # v.d)
-LemMonotone(v)  == LET rp == Resolve(v.d, v.r, v.p) IN
-                     Matches(v.n, v.d, rp) => Matches(v.n, v.d, ToStar(rp))
-LemLiteral(v)   == LET rp == Resolve(v.d, v.r, v.p) IN
-                     (\A i \in 1..Len(rp) : ~IsWild(rp[i])) =>
-                        (Matches(v.n, v.d, rp) <=> v.n = rp)
-LemNoDelim(v)   == LET rp == Resolve(v.d, v.r, v.p) IN
-                     v.d = NoDelim => (Matches(v.n, v.d, rp) <=> Matches(v.n, v.d, ToStar(rp)))
-LemDeclarative(v) == LET rp == Resolve(v.d, v.r, v.p) IN
-                     Matches(v.n, v.d, rp) <=> Declarative(v.n, v.d, rp)
-(* a relative pattern under a reference selects names below the reference  *)
-(* prefix whose remainder matches the pattern alone                        *)
-LemPrefix(v)    == LET pre == RefPrefix(v.d, v.r) IN
+(* The lemmas.  rp is the resolved pattern of vector v, m = Matches(v.n, v.d, rp)  *)
+(* and ms = Matches(v.n, v.d, ToStar(rp)); they are passed in so that TLC computes *)
+(* them once per vector.                                                          *)
+LemStarAll(v)        == Matches(v.n, v.d, <<ANY>>)
+LemPct(v)            == Matches(v.n, v.d, <<SEG>>) <=> (\A i \in 1..Len(v.n) : v.n[i] # v.d)
+LemMonotone(m, ms)   == m => ms                      \* replacing % by * only adds matches
+LemLiteral(v, rp, m) == (\A i \in 1..Len(rp) : ~IsWild(rp[i])) => (m <=> v.n = rp)
+LemNoDelim(v, m, ms) == v.d = NoDelim => (m <=> ms)   \* no delimiter: % behaves like *
+LemDeclarative(v, rp, m) == m <=> Declarative(v.n, v.d, rp)
+(* a relative pattern under a reference selects the names below the reference     *)
+(* prefix whose remainder matches the pattern alone                               *)
+LemPrefix(v, m) == LET pre == RefPrefix(v.d, v.r) IN
                      ~Absolute(v.d, v.p) =>
-                       (Expected(v) <=>
-                          /\ HasPrefix(v.n, pre)
-                          /\ Matches(SubSeqOrEmpty(v.n, Len(pre) + 1, Len(v.n)), v.d, Wild(v.p)))
+                       (m <=> /\ HasPrefix(v.n, pre)
+                              /\ Matches(SubSeqOrEmpty(v.n, Len(pre) + 1, Len(v.n)), v.d, Wild(v.p)))
 (* the two readings differ only where R-d says so *)
-LemAltNarrow(v) == Expected(v) # ExpectedAlt(v) => (v.r = <<>> /\ Absolute(v.d, v.p))
+LemAltNarrow(v, rp) == ~(v.r = <<>> /\ Absolute(v.d, v.p)) => ResolveAlt(v.d, v.r, v.p) = rp
 
-CheapLemmas(v) == /\ LemStarAll(v) /\ LemPct(v) /\ LemMonotone(v) /\ LemLiteral(v)
-                  /\ LemNoDelim(v) /\ LemPrefix(v) /\ LemAltNarrow(v)
-AllLemmas(v)   == CheapLemmas(v) /\ LemDeclarative(v)
+CheapLemmas(v) ==
+  LET rp == Resolve(v.d, v.r, v.p)
+      m  == Matches(v.n, v.d, rp)
+      ms == Matches(v.n, v.d, ToStar(rp))
+  IN /\ LemStarAll(v) /\ LemPct(v) /\ LemMonotone(m, ms) /\ LemLiteral(v, rp, m)
+     /\ LemNoDelim(v, m, ms) /\ LemPrefix(v, m) /\ LemAltNarrow(v, rp)
+AllLemmas(v) ==
+  /\ CheapLemmas(v)
+  /\ LET rp == Resolve(v.d, v.r, v.p) IN LemDeclarative(v, rp, Matches(v.n, v.d, rp))
 
 -----------------------------------------------------------------------------
 (* Enumeration machine: every vector of the bounded space is one state.    *)
